@@ -447,7 +447,7 @@ def run_links(case):
     from neuroglancer_scripts.scripts import link_mesh_fragments as lmf
     rnd = random.Random(case["seed"])
     top = tempfile.mkdtemp(prefix="c17l-")
-    obs = {"link_tables": 1, "link_files_checked": 0}
+    obs = {"link_tables": 1, "link_files_checked": 0, "labels_beyond_2_53": 0}
     v = []
     try:
         dest = os.path.join(top, "ds")
@@ -460,9 +460,12 @@ def run_links(case):
             json.dump(info, f)
         table = {}
         for _ in range(rnd.randint(1, 8)):
-            lab = rnd.choice([0, 1, 7, 42, 1000, 2 ** 32 - 1, rnd.randrange(10 ** 6)])
+            lab = rnd.choice([0, 1, 7, 42, 1000, 2 ** 32 - 1, rnd.randrange(10 ** 6),
+                              2 ** 53 + 1, 2 ** 63 + 3, 2 ** 64 - 1, rnd.getrandbits(64),
+                              2 ** 53 + 2 * rnd.randrange(1000) + 1])
             table[lab] = [rnd.choice(["fragA", "lh.pial", "b c", "frag,comma", "x" * 40])
                           for _ in range(rnd.randint(0, 4))]
+        obs["labels_beyond_2_53"] = int(any(lab > 2 ** 53 for lab in table))
         csv_path = os.path.join(top, "t.csv")
         with open(csv_path, "w", newline="") as f:
             w = csv.writer(f)
@@ -531,5 +534,6 @@ def gates(obs, tier):
         "triangles_checked": obs.get("triangles_checked", 0) > 1000,
         "gifti_with_transform": obs.get("with_transform", 0) > 5,
         "link_files_checked": obs.get("link_files_checked", 0) > 50,
+        "segment_labels_beyond_2_53": obs.get("labels_beyond_2_53", 0) > 0,
         "meshes_with_more_than_65535_vertices": obs.get("meshes_beyond_65535_vertices", 0) > 0,
     }
